@@ -132,7 +132,10 @@ func VerifC14Positions() {
 	from, to := p.vType("from", 1), p.vType("to", 1)
 	asInit, asAssign := vAccepts(from, to)
 	rt.Assert(asInit == asAssign, "initialiser position and assignment position accept the same pairs")
-	want := rt.Or(rt.Or(ddptypes.Equal(from, to), rt.And(ddptypes.IsNumeric(from), ddptypes.IsNumeric(to))), ddptypes.Equal(to, ddptypes.VARIABLE))
+	num := func(t ddptypes.Type) bool {
+		return rt.Or(rt.Or(ddptypes.Equal(t, ddptypes.ZAHL), ddptypes.Equal(t, ddptypes.KOMMAZAHL)), ddptypes.Equal(t, ddptypes.BYTE))
+	}
+	want := rt.Or(rt.Or(ddptypes.Equal(from, to), rt.And(num(from), num(to))), ddptypes.Equal(to, ddptypes.VARIABLE))
 	rt.Assert(asInit == want, "an initialiser is accepted exactly for equivalent, numeric/numeric, or Variable targets")
 	rt.Assert(asAssign == want, "an assigned value is accepted exactly for equivalent, numeric/numeric, or Variable targets")
 }
